@@ -1108,6 +1108,25 @@ impl<'ast, 'r, 'a> Visit<'ast> for Collector<'r, 'a> {
                 self.rw.log.push(format!("R66 M.iter().flat_map(|..| B.iter().map(..)) -> loops {k0} / {k1} collecting into a vector"));
                 self.edits.push(Edit { range: rng(e), text: format!("{{ let mut __out{out_ty} = Vec::new(); let __rows = __tmap_entries(&{table}); let ghost __rows_g = __rows@; for {opat} in {iter0}__rows {hdr0}{{ {bs0}let __cells = __imap_entries(&({row})); let ghost __cells_g = __cells@; for {ipat} in {iter1}__cells {hdr1}{{ {bs1}__out.push({body}); {be1}}} {after_inner} {be0}}} {after} __out }}"), prio: 0 });
             }
+            // R68 (in a function extracted by R64): `X.clone().into_iter()` on an inner map of the table -> `__imap_owned_entries(X)`;
+            //      `IndexMap::<InpId, StateId>::default().into_iter()` -> `Vec::new()`   (an empty map yields nothing)
+            syn::Expr::MethodCall(m)
+                if self.rw.on("R68") && m.method == "into_iter" && m.args.is_empty()
+                    && is_method(&m.receiver, "clone").map_or(false, |c| c.args.is_empty()) =>
+            {
+                let c = is_method(&m.receiver, "clone").unwrap();
+                let recv = self.render(&c.receiver);
+                self.rw.log.push("R68 X.clone().into_iter() -> __imap_owned_entries(X)".to_string());
+                self.edits.push(Edit { range: rng(e), text: format!("__imap_owned_entries({recv})"), prio: 0 });
+            }
+            syn::Expr::MethodCall(m)
+                if self.rw.on("R68") && m.method == "into_iter" && m.args.is_empty()
+                    && is_method(&m.receiver, "default").is_none()
+                    && norm(self.rw.text(&*m.receiver)).replace(' ', "") == "IndexMap::<InpId,StateId>::default()" =>
+            {
+                self.rw.log.push("R68 IndexMap::<InpId, StateId>::default().into_iter() -> Vec::new()".to_string());
+                self.edits.push(Edit { range: rng(e), text: "Vec::new()".to_string(), prio: 0 });
+            }
             // R52: M.keys().cloned().collect()  ->  __imap_key_set(&M)   (the key set of an inner map of the table; the
             // stand-in returns IndexSet<InpId>, so the rewritten text only compiles at that type)
             syn::Expr::MethodCall(m)
